@@ -79,8 +79,16 @@ def strategy(tier):
         a = {"exact": algo == "exact", "pre_tau": None, "epsilon": None}
         if algo == "pre_tau":
             a["pre_tau"] = draw(st.sampled_from([0.01, 0.05, 0.2, 1.0]))
+        if shape == "any" and draw(st.integers(0, 4)) == 0:
+            # a magnitude that is the current value of a state ('the whole compartment leaves at once'): the state-change
+            # matrix then depends on the state and has to be evaluated at every step
+            names_ = ir.state_names(m)
+            tgt = draw(st.sampled_from(names_))
+            m = dict(m, events=m["events"] + [{"rate": ir.C(draw(S.fl(0.05, 0.6, 2))), "rate_kind": "const",
+                                               "trans": [{"kind": "D", "o": tgt, "d": None, "mag": {"state": tgt}}]}])
         c = {"model": m, "setup": setup, "algo": a, "iters": draw(st.integers(1, 3))}
-        if shape == "any" and draw(st.integers(0, 3)) == 0:
+        state_mag = any("state" in t["mag"] for e in m["events"] for t in e["trans"])
+        if shape == "any" and not state_mag and draw(st.integers(0, 3)) == 0:
             # magnitudes carried by parameters and a second simulation on the same object after re-assigning the parameters
             pm = draw(S.parametrise_magnitudes(m, setup))
             if pm is not None:
@@ -109,7 +117,11 @@ def _check_run(case, rec, model, order, su, tag):
     m, algo = case["model"], case["algo"]
     names = ir.state_names(m)
     n_s, n_e = len(names), len(m["events"])
-    V = stoch.V_int(m, su["theta"], order)
+    state_mag = any("state" in t["mag"] for e in m["events"] for t in e["trans"])
+    V = stoch.V_at(m, su["x0"], su["theta"], order) if state_mag else stoch.V_int(m, su["theta"], order)
+    V_of = (lambda x: stoch.V_at(m, x, su["theta"], order)) if state_mag else None
+    if state_mag:
+        rec.label("magnitude:state-valued")
     lims = ir.state_limits(m)
     t_end = su["t0"] + su["horizon"]
     which = "exact" if algo["exact"] else ("pre_tau" if algo["pre_tau"] else "tau")
@@ -131,12 +143,13 @@ def _check_run(case, rec, model, order, su, tag):
         raise PropertyViolation(key + "/iterations", "asked for %d runs, got %d/%d/%d" % (case["iters"], len(Xs), len(Cs), len(Ts)), case)
     nontrivial = False
     for X, Cn, T in zip(Xs, Cs, Ts):
-        steps, fired = stoch.check_path(key, case, X, Cn, T, su["x0"], su["t0"], V, algo["exact"])
+        steps, fired = stoch.check_path(key, case, X, Cn, T, su["x0"], su["t0"], V, algo["exact"], V_of)
         # termination: horizon passed, or nothing can fire, or a positive-rate event would leave the limits
         t_last, x_last = float(np.asarray(T)[-1]), np.asarray(X)[-1]
         if t_last < t_end:
             rates = stoch.rates_at(m, x_last, t_last, su["theta"], order)
-            blocked = [j for j in range(n_e) if rates[j] > 0 and not stoch.within(x_last + V[:, j], lims)]
+            V_last = V_of(x_last) if V_of is not None else V
+            blocked = [j for j in range(n_e) if rates[j] > 0 and not stoch.within(x_last + V_last[:, j], lims)]
             if (rates > 0).any() and not blocked:
                 raise PropertyViolation(key + "/premature-return", "path stopped at t=%r < %r in state %s although events "
                                         "with rates %s can fire legally" % (t_last, t_end, x_last, rates), case)
